@@ -34,6 +34,9 @@ impl DfsStats {
 pub struct Caps {
     pub deadline: Option<Instant>,
     pub max_executions: u64,
+    /// choice points beyond this depth are not branched on (the run is then reported as capped):
+    /// protects the explorer against executions that do not terminate (livelocks)
+    pub max_branch_depth: usize,
 }
 
 impl Default for Caps {
@@ -41,6 +44,7 @@ impl Default for Caps {
         Caps {
             deadline: None,
             max_executions: u64::MAX,
+            max_branch_depth: 3000,
         }
     }
 }
@@ -98,7 +102,11 @@ pub fn explore<R>(
         stats.max_cost_seen = stats.max_cost_seen.max(cost);
         let choices: Vec<u32> = trace.iter().map(|c| c.pick).collect();
         // children: deviate at every point after the prefix
-        for i in (plen..trace.len()).rev() {
+        let limit = trace.len().min(caps.max_branch_depth);
+        if trace.len() > limit {
+            stats.capped = true;
+        }
+        for i in (plen..limit).rev() {
             let c = &trace[i];
             if c.n <= 1 {
                 continue;
